@@ -158,7 +158,12 @@ func (g *goRenderer) stmt(ind int, s Stmt) {
 	case Panic:
 		g.line(ind, "doPanic("+g.expr(x.E)+")")
 	case ExprStmt:
-		g.line(ind, g.expr(x.E))
+		if _, isCall := x.E.(Call); isCall {
+			g.line(ind, g.expr(x.E))
+		} else {
+			// Go rejects an unused value; "_ = e" evaluates e once, which is the meaning under test
+			g.line(ind, "_ = "+g.expr(x.E))
+		}
 	case Return:
 		g.line(ind, "return "+g.exprs(x.Values))
 	case Break:
@@ -377,7 +382,7 @@ func GoSelfCheck(progs []*Program) (compared int, problems []string) {
 		}
 		g := &goRenderer{ok: true}
 		g.block(1, p.Files[0].Stmts)
-		if !g.ok {
+		if !g.ok || strings.Contains(g.b.String(), "UNSUPPORTED") {
 			continue
 		}
 		fmt.Fprintf(&src, "func prog%d() {\n%s}\n", i, g.b.String())
